@@ -109,6 +109,18 @@ theorem opAt_OK (interp : Nat → COp) (hok : ∀ t, (interp t).OK) (e : Ex) : (
   | wr f => simp only; split <;> trivial
   | ext x => simp only; split <;> simp_all [COp.OK]
 
+theorem calleeFinish_abs (out : Out) (log : List Nat) (w : CW) :
+    (calleeFinishC out log w).1 = (calleeFinishO out log w.abs).1 ∧
+    (calleeFinishC out log w).2.abs = (calleeFinishO out log w.abs).2 := by
+  unfold calleeFinishC calleeFinishO
+  have hm : w.abs.mem = w.mem := rfl
+  simp only [hm, true_and]
+  split <;> (split <;> rfl)
+
+theorem Ext.mapArgs_OK (x : Ext) (hx : x.OK) (g : List Nat → List Nat → List Nat) : (x.mapArgs g).OK := by
+  intro vals w
+  exact hx (g w.mem.fields vals) w
+
 /-- The chunked and the one-shot interpretation are the same interpretation up to `CW.abs`. -/
 theorem chunk_one_sim (interp : Nat → COp) (hok : ∀ t, (interp t).OK) (comb : Nat → Nat → Nat → Nat) :
     CfgSim CW.abs (chunkCfg interp comb) (oneCfg interp comb) where
